@@ -655,7 +655,7 @@ def charged_operator(rng, qd, c, cplx=True, iso=False):
     return np.where(mask, X, 0)
 
 
-def nn_pattern_hamiltonian(rng, qd, L, pattern=None, cplx=True, npairs=None):
+def nn_pattern_hamiltonian(rng, qd, L, pattern=None, cplx=True, npairs=None, iso=None):
     """
     Hand-built automaton-form MPO (independent of the repository's graph compiler) of a Hermitian nearest-neighbour Hamiltonian with
     SITE-DEPENDENT parameters:  H = sum_i sum_k [ J_i^k X^k_i (X^k)^dagger_{i+1} + h.c. ] + sum_i h_i N_i,  N charge neutral.
@@ -667,7 +667,7 @@ def nn_pattern_hamiltonian(rng, qd, L, pattern=None, cplx=True, npairs=None):
     diffs = np.unique(np.subtract.outer(qd, qd))
     K = int(rng.integers(1, 3)) if npairs is None else npairs
     Xs = []
-    iso_draw = float(rng.random())              # three in ten complex models use isotropic end-point operators (entries squared sum to zero)
+    iso_draw = float(rng.random()) if iso is None else (0.0 if iso else 1.0)              # three in ten complex models use isotropic end-point operators (entries squared sum to zero)
     for _ in range(K):
         c = int(rng.choice(diffs))
         X = charged_operator(rng, qd, c, cplx, iso=bool(cplx and iso_draw < 0.3))
